@@ -171,6 +171,31 @@ func (g *gen) bases(l live) []base {
 	}
 }
 
+var storageMethods = []string{"GetClientByClientID", "AuthorizeClientIDSecret", "CreateAuthRequest", "AuthRequestByID", "AuthRequestByCode",
+	"SaveAuthCode", "DeleteAuthRequest", "CreateAccessToken", "CreateAccessAndRefreshTokens", "TokenRequestByRefreshToken", "TerminateSession",
+	"GetRefreshTokenInfo", "RevokeToken", "SigningKey", "SignatureAlgorithms", "KeySet", "SetUserinfoFromScopes", "SetUserinfoFromToken",
+	"SetIntrospectionFromToken", "GetPrivateClaimsFromScopes", "GetKeyByIDAndClientID", "ValidateJWTProfileScopes", "Health", "SetUserinfoFromRequest",
+	"ClientCredentials", "ClientCredentialsTokenRequest", "ValidateTokenExchangeRequest", "CreateTokenExchangeRequest",
+	"GetPrivateClaimsFromTokenExchangeRequest", "SetUserinfoFromTokenExchangeRequest", "StoreDeviceAuthorization", "GetDeviceAuthorizatonState"}
+
+// storage methods a route (by class) normally calls
+var routeMethods = map[int][]string{
+	1:  {"GetClientByClientID", "CreateAuthRequest", "KeySet", "GetKeyByIDAndClientID"},
+	2:  {"AuthRequestByID", "GetClientByClientID", "SaveAuthCode"},
+	3:  {"AuthRequestByCode", "GetClientByClientID", "AuthorizeClientIDSecret", "CreateAccessAndRefreshTokens", "SigningKey", "SetUserinfoFromScopes", "GetPrivateClaimsFromScopes", "DeleteAuthRequest"},
+	4:  {"GetClientByClientID", "AuthorizeClientIDSecret", "TokenRequestByRefreshToken", "CreateAccessAndRefreshTokens", "SigningKey", "GetKeyByIDAndClientID"},
+	5:  {"ClientCredentials", "ClientCredentialsTokenRequest", "CreateAccessToken"},
+	6:  {"GetKeyByIDAndClientID", "ValidateJWTProfileScopes", "CreateAccessToken"},
+	7:  {"AuthorizeClientIDSecret", "GetClientByClientID", "KeySet", "TokenRequestByRefreshToken", "ValidateTokenExchangeRequest", "CreateTokenExchangeRequest", "CreateAccessToken", "GetPrivateClaimsFromTokenExchangeRequest", "SigningKey"},
+	8:  {"AuthorizeClientIDSecret", "GetDeviceAuthorizatonState", "GetClientByClientID", "CreateAccessToken", "SigningKey"},
+	9:  {"AuthorizeClientIDSecret", "SetIntrospectionFromToken", "KeySet"},
+	10: {"SetUserinfoFromToken", "KeySet"},
+	11: {"AuthorizeClientIDSecret", "GetClientByClientID", "GetRefreshTokenInfo", "RevokeToken"},
+	12: {"KeySet", "GetClientByClientID"},
+	13: {"AuthorizeClientIDSecret", "GetClientByClientID", "StoreDeviceAuthorization"},
+	14: {"SignatureAlgorithms", "KeySet", "Health"},
+}
+
 var tokenParams = map[string]bool{"code": true, "refresh_token": true, "assertion": true, "subject_token": true, "actor_token": true,
 	"device_code": true, "token": true, "access_token": true, "id_token_hint": true, "client_assertion": true, "request": true, "id": true}
 
@@ -367,8 +392,21 @@ func routeCases(w *emit.Writer, g *gen, n int) {
 		for k, v := range headers {
 			req.Header.Set(k, v)
 		}
-		res := do(f.Handlers[rt], req, st)
-		tags = append(tags, "kind=route", "router="+rt.String(), "route="+b.name, "method="+method)
+		// storage-fault dimension: the k-th storage call of this request, or every call of one method, fails
+		flt := fault{}
+		if i >= 4 && r.Chance(1, 3) {
+			if r.Bool() {
+				flt.at = 1 + r.IntN(5)
+			} else {
+				flt.method = drv.Pick(r, storageMethods)
+				if ms := routeMethods[b.class]; len(ms) > 0 && r.Chance(3, 4) {
+					flt.method = drv.Pick(r, ms)
+				}
+			}
+			flt.kind = drv.Pick(r, []string{"error", "deadline"})
+		}
+		res := do(f.Handlers[rt], req, st, flt)
+		tags = append(tags, "kind=route", "router="+rt.String(), "route="+b.name, "method="+method, flt.tag())
 		if ftag != "" {
 			tags = append(tags, ftag)
 		}
@@ -382,7 +420,8 @@ func routeCases(w *emit.Writer, g *gen, n int) {
 			Tags:     tags,
 			Human: map[string]any{"method": method, "target": short([]byte(target)), "body": short([]byte(body)), "content_type": ctype,
 				"authorization": short([]byte(req.Header.Get("Authorization"))), "status": res.status, "first_status": res.first, "writes": res.writes,
-				"panic": res.panic, "storage_calls_after_first_write": res.end - res.atFirst, "response": short([]byte(res.body))},
+				"panic": res.panic, "storage_calls_after_first_write": res.end - res.atFirst, "response": short([]byte(res.body)),
+				"fault": fmt.Sprintf("%d/%s/%s hit=%v", flt.at, flt.method, flt.kind, res.hit)},
 		})
 	}
 }
